@@ -84,6 +84,21 @@ def run_tv(ctx, n_cases, max_len=800):
             if len(df) < 4:
                 continue
             df = pj.relabel(df, i // 4)          # the user's table: its row labels are not part of the abstract table
+            if mode == 'object' and i % 16 == 11:
+                # thresholds with three and more decimals, placed just below the value of a cycle that is part of a burst: lowering "by r" must not
+                # round the result (and the settings may be numpy scalars)
+                lab = df['is_burst'].values
+                inside = [j for j in range(1, len(df) - 1) if lab[j]]
+                if inside:
+                    j = inside[len(inside) // 2]
+                    for col in ('monotonicity', 'period_consistency', 'amp_consistency'):
+                        v_j = float(df[col].values[j])
+                        t = next((v_j - d for d in (0.001, 0.002, 0.004) if 0 < v_j - d and round(v_j - d, 2) >= v_j), None)
+                        if t is not None:
+                            th[col + '_threshold'] = t
+                    th = {k: (np.float64(v) if isinstance(v, float) else v) for k, v in th.items()}
+                    o['threshold_kwargs'] = th
+                    df = pj.relabel(compute_features(c['sig'].copy(), c['fs'], c['f_range'], **copy.deepcopy(o)), i // 4)
             th2 = dict(th)
             red = 0.0
             if mode == 'lowered':
